@@ -332,6 +332,8 @@ package tchannel
 //@   ensures r.HealthChecks.Interval == co.HealthChecks.Interval
 //@   ensures co.HealthChecks.FailuresToClose == 0 ==> r.HealthChecks.FailuresToClose == 5
 //@   ensures co.HealthChecks.FailuresToClose != 0 ==> r.HealthChecks.FailuresToClose == co.HealthChecks.FailuresToClose
+//@   ensures co.ChecksumType != ChecksumTypeNone ==> r.ChecksumType == co.ChecksumType
+//@   ensures co.ChecksumType == ChecksumTypeNone ==> r.ChecksumType == ChecksumTypeCrc32
 //@   property C19
 
 // "closed after the configured number of consecutive ping failures and not
